@@ -29,19 +29,21 @@ Definition chk_state (p : epolicy) (s : sobs) : bool :=
   forallb (chk_q p) (s_q s) &&
   forallb (fun o => Bool.eqb (phantom_blocked p (fst o)) (snd o)) (s_ph s).
 
-Fixpoint chk_steps (cur : epolicy) (l : list sobs) : bool :=
+Fixpoint chk_steps (ifaces : list ipnet) (cur : epolicy) (l : list sobs) : bool :=
   match l with
   | [] => true
-  | s :: r => let p := reload_pol cur (s_file s) in
-              Bool.eqb (is_some (load (s_file s))) (s_loaded s) && chk_state p s && chk_steps p r
+  | s :: r => let p := reload_pol ifaces cur (s_file s) in
+              Bool.eqb (is_some (load ifaces (s_file s))) (s_loaded s) && chk_state p s && chk_steps ifaces p r
   end.
 
 (* start-up (the first file must load, otherwise there is no station), then reloads *)
-Definition chk_enf (l : list sobs) : bool :=
+(* ifaces: the subnets of the machine's interfaces as the driver's own net.Interfaces() call sees them *)
+Definition chk_enf (c : list ipnet * list sobs) : bool :=
+  let '(ifaces, l) := c in
   match l with
   | [] => true
-  | s :: r => match load (s_file s) with
-              | Some p => s_loaded s && chk_state p s && chk_steps p r
+  | s :: r => match load ifaces (s_file s) with
+              | Some p => s_loaded s && chk_state p s && chk_steps ifaces p r
               | None => negb (s_loaded s)
               end
   end.
